@@ -5,6 +5,8 @@
 (*  {"op":"verify"|"batch","key":{m,c,b},"vc":bool,"vu":bool,"lru":[keys],"n":n, "sig":..,"msg":..}*)
 (*  {"op":"sign","key":{m,c,b},"lru":[keys]}                                                  *)
 (*  {"op":"combine","okc":bool,"oku":bool,"same":bool}                                        *)
+(*  {"op":"overlap","of":"verify"|"batch","key":..,"vcs":[bool..],"reached":[bool..],"vu":bool,"lru":[keys]}: *)
+(*      2-3 calls for one signature, each started while the earlier ones are inside the scheme  *)
 EXTENDS SigCache, Cert, Json, TLC
 Trace == ndJsonDeserialize("trace.ndjson")
 VARIABLES l, entries, cap
@@ -15,7 +17,7 @@ Step ==
     /\ l < Len(Trace)
     /\ l' = l + 1
     /\ CASE Line.op = "new" -> entries' = <<>> /\ cap' = Line.cap
-         [] Line.op \in {"verify", "batch"} -> entries' = CachedNext(entries, Line.key, Line.vu, cap) /\ cap' = cap
+         [] Line.op \in {"verify", "batch", "overlap"} -> entries' = CachedNext(entries, Line.key, Line.vu, cap) /\ cap' = cap
          [] Line.op = "sign" -> entries' = Insert(entries, Line.key, cap) /\ cap' = cap
          [] OTHER -> UNCHANGED <<entries, cap>>
 Spec == Init /\ [][Step]_vars
@@ -24,6 +26,7 @@ Cur == Trace[l]
 \* Pass A: the cache never changes a verdict
 PropertyOK == l > 0 =>
     CASE Cur.op \in {"verify", "batch", "xverify"} -> Cur.vc = Cur.vu       \* ("xverify": a raw message, see the driver)
+      [] Cur.op = "overlap" -> \A i \in 1..Len(Cur.vcs) : Cur.vcs[i] = Cur.vu       \* overlapping callers (MC_SigCacheConc)
       [] Cur.op = "combine" -> Cur.okc = Cur.oku /\ Cur.same
       [] OTHER -> TRUE
 \* the uncached verdict is the one the certificate model computes (ties C11 to Cert)
@@ -32,6 +35,6 @@ UncachedIsModel == l > 0 =>
       [] OTHER -> TRUE
 \* Pass B: the real LRU list equals the model's after every operation
 ConformsToModel == l > 0 =>
-    CASE Cur.op \in {"verify", "batch", "sign"} -> Cur.lru = entries
+    CASE Cur.op \in {"verify", "batch", "sign", "overlap"} -> Cur.lru = entries
       [] OTHER -> TRUE
 =============================================================================
